@@ -2,10 +2,11 @@ package interp
 
 import (
 	"fmt"
-	"os"
 	"go/token"
 	"go/types"
+	"os"
 	"strings"
+	"time"
 
 	"symgo/solver"
 	"symgo/term"
@@ -77,11 +78,11 @@ type Interp struct {
 	globals map[*ssa.Global]*Object
 	inited  map[*ssa.Package]bool
 
-	initPhase bool
-	journal   []undoRec
+	initPhase  bool
+	journal    []undoRec
 	mapJournal []mapUndo
-	nextObj   int
-	baseObj   int
+	nextObj    int
+	baseObj    int
 
 	path *Path
 
@@ -452,6 +453,10 @@ func (in *Interp) runBlocks(fr *frame) Value {
 			in.curIns = ins
 			if in.steps > in.Cfg.MaxSteps {
 				in.path.inconclusive("unwind: per-path instruction budget exhausted")
+				panic(pathEnd{"budget"})
+			}
+			if in.steps&0xFFFFF == 0 && !in.S.Deadline.IsZero() && time.Now().After(in.S.Deadline) {
+				in.path.inconclusive("wall-clock budget of the run exhausted inside a path")
 				panic(pathEnd{"budget"})
 			}
 			switch x := ins.(type) {
